@@ -640,12 +640,14 @@ def sequences(ctx):
     on_key = [(t, p) for t, p in conds_ if any(isinstance(x, ast.Name) and x.id == 'transpose_to_key' for x in ast.walk(t))]
     if empty_:
       ctx.ob('SEQ/squash-every-exit', sq, node_, True, 'the exit without a transposition is taken only when the melody has no pitch', construct=cons_ + ' (no-pitch exit)')
-    elif on_key or node_ is sq.node:
+    elif (on_key and len(on_key) == len(conds_)) or node_ is sq.node:
       ctx.ob('SEQ/squash-every-exit', sq, node_, False, 'Melody.squash can end without self.transpose(...) %s: with no key requested the amount is 0, but the octave fold into [min_note, max_note) '
              'is part of that call and is then never applied' % (('when ' + ' and '.join(('' if p else 'not ') + norm_text(t) for t, p in on_key)) if on_key else 'on the path that falls off the end'),
              construct=cons_, definite=True)
     else:
-      why_ = 'cannot classify: Melody.squash can return (line %d) without self.transpose' % getattr(node_, 'lineno', 0)
+      # a further condition on the path (say `lowest is None` after a scan for the extreme pitches) may be the no-pitch test in another form
+      why_ = 'cannot classify: Melody.squash can return (line %d) without self.transpose under %s' % (
+          getattr(node_, 'lineno', 0), ' and '.join(('' if p else 'not ') + norm_text(t) for t, p in conds_ if (t, p) not in on_key) or 'no condition')
       ctx.ob('SEQ/squash-every-exit', sq, node_, False, why_, construct=cons_, unknown=why_)
   lq = ctx.func('lead_sheets_lib:LeadSheet.squash')
   asg = [s for s in lq.node.body if isinstance(s, ast.Assign) and isinstance(s.value, ast.Call) and norm_text(s.value.func) == 'self._melody.squash']
